@@ -2,7 +2,8 @@
     enumeration, parse arms resolved against the enum/mask declarations. *)
 From RV Require Import Model.Base Model.Spirv Model.Grammar Model.Reflect Model.Decoder Model.Inst
                        Model.Parser Model.Link.
-From RV Require Import Gen.SpirvData Gen.TableData Gen.ReflectData Gen.ParseData.
+From RV Require Import Model.Module Model.Loader.
+From RV Require Import Gen.SpirvData Gen.TableData Gen.ReflectData Gen.ParseData Gen.LoaderData.
 From RV Require Gen.RefParams Gen.RefTable Gen.RefSpirv.
 
 Definition core_table : list entry :=
@@ -88,3 +89,13 @@ Proof. split; vm_cast_no_check (eq_refl true). Qed.
 Lemma values_match_ref :
   list_eqb enum_values_eqb enums RefSpirv.enums = true /\ list_eqb flags_eqb flags RefSpirv.flags = true.
 Proof. split; vm_cast_no_check (eq_refl true). Qed.
+
+(** ---- loader arms of this run ---- *)
+Definition loader_arms : list larm :=
+  Eval vm_compute in match link_larms op_enum loader_arms_raw with Some l => l | None => [] end.
+
+Lemma loader_arms_link : link_larms op_enum loader_arms_raw = Some loader_arms.
+Proof. vm_compute. reflexivity. Qed.
+
+Lemma loader_translated_completely : loader_translation_failures = [].
+Proof. vm_compute. reflexivity. Qed.
